@@ -94,6 +94,16 @@ def cols_oracle(run, case, res, d, cols):
             run.fail("missing-nan", case, {"curve": j, "got": [str(x) for x in arr.tolist()]})
 
 
+def read_as_string(text, kw):
+    """the text handed to lasio.read() as a str (not wrapped in a StringIO by the caller)"""
+    import lasio
+    try:
+        las = lasio.read(text, **kw)
+        return {"res": ["ok", dd.canon_curves(las)], "las": las}
+    except Exception as e:
+        return {"res": ["err", "Other:" + type(e).__name__, str(e)[:80]], "las": None}
+
+
 def special_docs(rng):
     """documents whose binding depends on a detail of one engine or one splitter: (text, d, expected columns, read keywords, tag)"""
     out = []
@@ -116,6 +126,29 @@ def special_docs(rng):
             text = dd.assemble(dd.header(declared=decl), "~A", body, [])
             DECL[text] = decl
             out.append((text, 3, [[row[j] for row in rows] for j in range(3)], {"engine": "normal"}, "hash-in-text-cell"))
+    # a custom comment character for the data section (ignore_data_comments): the column sniffer and the engines skip the same lines
+    for d, c in ((1, 3), (3, 2), (2, 2), (0, 2)):
+        rows = [[float(1000 * i + j) for j in range(c)] for i in range(3)]
+        body = []
+        for i, row in enumerate(rows):
+            if i in (0, 2):
+                body.append(["% remark", "%", "  % indented 1 2 3", "%7 8 9 10"][(i + d + c) % 4])
+            body.append(" ".join(repr(x) for x in row))
+        decl = dd.names(d)
+        text = dd.assemble(dd.header(declared=decl), "~A", body, [])
+        DECL[text] = decl
+        for eng in ("numpy", "normal"):
+            out.append((text, d, [[row[j] for row in rows] for j in range(c)], {"engine": eng, "ignore_data_comments": "%"}, "custom-comment-char"))
+    # white space other than blank and TAB between two values of a line (form feed, vertical tab, FS): still one line
+    for d, c in ((1, 3), (3, 2), (2, 2)):
+        for ws in ("\x0c", "\x0b", "\x1c", " \x0c "):
+            rows = [[float(1000 * i + j) for j in range(c)] for i in range(3)]
+            body = [(ws if i == 1 else " ").join(repr(x) for x in row) for i, row in enumerate(rows)]
+            decl = dd.names(d)
+            text = dd.assemble(dd.header(declared=decl), "~A", body, [])
+            DECL[text] = decl
+            for eng in ("numpy", "normal"):
+                out.append((text, d, [[row[j] for row in rows] for j in range(c)], {"engine": eng}, "odd-whitespace"))
     # the dtypes option: a dict / list for the DECLARED curves; whatever read succeeds keeps every data column
     for d, c in ((2, 2), (1, 3), (2, 4), (3, 2)):
         rows = [[float(1000 * i + j) for j in range(c)] for i in range(3)]
@@ -129,6 +162,36 @@ def special_docs(rng):
             out.append((text, d, cols, {"engine": eng, "dtypes": [float] * d}, "dtypes-list"))
             out.append((text, d, cols, {"engine": eng, "dtypes": [float] * c}, "dtypes-full-list"))
     return out
+
+
+DOTTED = [("RES..OHMM : deep res", ("RES.", "OHMM", "deep res")), ("GR.GAPI : scale 1..8", ("GR", "GAPI", "scale 1..8")),
+          ("Cond..MS/M : x", ("Cond.", "MS/M", "x")), ("NPHI.V/V : see remarks.. run 2", ("NPHI", "V/V", "see remarks.. run 2"))]
+
+
+def dotted_curves(run, only_text=None):
+    """~Curves lines with a dotted mnemonic (`RES..OHMM`) next to lines whose DESCRIPTION holds a double dot, in every order: each
+    declared curve keeps its own mnemonic, unit and description, and its own column"""
+    import itertools
+    import lasio
+    for k in (2, 3):
+        for combo in itertools.permutations(DOTTED, k):
+            lines = ["DEPT.M : depth"] + [c[0] for c in combo]
+            text = "~Version\nVERS. 2.0 : v\nWRAP. NO : w\n~Well\nNULL. -999.25 : n\n~Curve\n" + "\n".join(lines) + "\n~A\n" + \
+                "\n".join(" ".join(str(10 * i + j) for j in range(k + 1)) for i in range(2)) + "\n"
+            if only_text is not None and text != only_text:
+                continue
+            case = {"text": text, "dotted": [c[0] for c in combo]}
+            if hasattr(run, "case"):
+                run.case(case, nontrivial=True, tags=["dotted-curves"])
+            try:
+                las = lasio.read(text, mnemonic_case="preserve")
+                got = [(c.original_mnemonic, c.unit, c.descr, [float(x) for x in c.data]) for c in las.curves]
+            except Exception as e:
+                run.fail("declared-metadata", case, {"exc": repr(e)})
+                continue
+            want = [("DEPT", "M", "depth", [0.0, 10.0])] + [(c[1][0], c[1][1], c[1][2], [float(j + 1), float(10 + j + 1)]) for j, c in enumerate(combo)]
+            if got != want:
+                run.fail("declared-metadata", case, {"expected": want, "observed": got})
 
 
 def oracle(run, case, res, d, c, r):
@@ -239,6 +302,7 @@ def run(run):
                     if res["res"][0] == "ok" or spelling in ("COMMA", "TAB", "SPACE"):
                         oracle(run, case, res, c, c, r)
                     dd.compare(run, "dlm-spelling/" + eng, text, {"engine": eng}, res, False, case=case)
+    dotted_curves(run)
     for text, d, cols, kw, tag in special_docs(run.rng):
         case = {"text": text, "d": d, "cols": [[x if isinstance(x, str) else repr(x) for x in col] for col in cols],
                 "kw": {k: (v if k == "engine" else repr(v)) for k, v in kw.items()}, "special": tag}
@@ -246,6 +310,8 @@ def run(run):
         res = dd.real_read(text, **kw)
         if res["res"][0] == "ok" or not tag.startswith("dtypes"):       # (a dtypes list shorter than the columns raises: not a successful read)
             cols_oracle(run, case, res, d, cols)
+        if tag == "odd-whitespace":
+            cols_oracle(run, dict(case, channel="string"), read_as_string(text, kw), d, cols)
     # wrapped with more columns than one line holds, long rows
     for _ in range(run.budget(60, 1500)):
         d = run.rng.randint(1, 14)
@@ -292,11 +358,14 @@ class _Probe:
 
 def violates(c):
     p = _Probe()
+    if c.get("dotted"):
+        dotted_curves(p, only_text=c["text"])
+        return p.failures
     if c.get("special"):
         import random
         for text, d, cols, kw, tag in special_docs(random.Random(0)):
             if text == c["text"] and {k: (v if k == "engine" else repr(v)) for k, v in kw.items()} == c["kw"]:
-                res = dd.real_read(text, **kw)
+                res = read_as_string(text, kw) if c.get("channel") == "string" else dd.real_read(text, **kw)
                 if res["res"][0] == "ok" or not tag.startswith("dtypes"):
                     cols_oracle(p, c, res, d, cols)
         return p.failures
@@ -310,7 +379,7 @@ def violates(c):
 
 def shrink(run, f):
     c = dict(f["case"])
-    if "d" not in c or c.get("wrapped") or c.get("special"):
+    if "d" not in c or c.get("wrapped") or c.get("special") or c.get("dotted"):
         return f
     best = c
     for r in range(1, c["r"] + 1):
